@@ -298,3 +298,145 @@ def check_section(ctx, P):
                 ctx.ob("R-SECTION", "%s section over %s skips via %s" % (short_cls, K, pred), sup == {pred}, f.loc(loop),
                        "skip predicate(s) used in the loop: %s" % sorted(sup))
     ctx.floor("R-SECTION", "section/predicate pairs", n, 16)
+
+
+CATEGORY_SETTERS = ("add_to_category", "add_to_local_category", "add_to_local_and_inherited_categories",
+                    "remove_from_category", "remove_from_local_category", "set_category", "set_local_category")
+CATEGORY_READERS = ("is_filtered_out", "is_filtered_out_wrt_non_inherited_categories", "get_category", "get_local_category",
+                    "to_be_reported", "is_suppressed", "has_local_changes_to_be_reported")
+
+
+def check_catorder(ctx, P):
+    """R-CATORDER: in corpus_diff::priv::apply_filters_and_compute_diff_stats the categories are complete before
+    they are counted: no call that can write a diff node's category (maybe_apply_filters, the redundancy pass -
+    found through the call graph, not by name) is reachable in the CFG from a call that reads a category to feed
+    a counter, and every such read is dominated by the redundancy categorisation."""
+    f = P.fn1("abigail::comparison::corpus_diff::priv::apply_filters_and_compute_diff_stats")
+    ctx.analysed(f)
+    cfg = f.cfg()
+    setters = {g.u for g in P.all_funcs() if g.cls == "abigail::comparison::diff" and g.n in CATEGORY_SETTERS}
+    if len(setters) < 4:
+        raise AnalysisBroken("anchor vanished: the category setters of comparison::diff")
+    writes_memo = {}
+
+    def writes(u):
+        if u not in writes_memo:
+            r = P.reach([u])
+            writes_memo[u] = bool(setters & set(r))
+        return writes_memo[u]
+    writers, readers = [], []
+    for n, d in f.calls():
+        if d.get("cls") == "abigail::comparison::diff" and d["n"] in CATEGORY_READERS:
+            readers.append(n)
+        elif d.get("u") in P.funcs and writes(d["u"]):
+            writers.append((n, d))
+    ctx.floor("R-CATORDER", "category-writing calls in apply_filters_and_compute_diff_stats", len(writers), 4)
+    ctx.floor("R-CATORDER", "category reads feeding the counters", len(readers), 3)
+    # CFG reachability between elements
+    where = {}
+    for n in [w for w, _ in writers] + readers:
+        where[n["i"]] = cfg.where(n)
+    succ_closure = {}
+
+    def reachable_blocks(b):
+        if b not in succ_closure:
+            seen, work = set(), [b]
+            while work:
+                x = work.pop()
+                for s_ in cfg.blocks[x].succs:
+                    if s_ is not None and s_ in cfg.blocks and s_ not in seen:
+                        seen.add(s_)
+                        work.append(s_)
+            succ_closure[b] = seen
+        return succ_closure[b]
+
+    def reaches(a, b):
+        """can element b execute after element a?"""
+        wa, wb = where[a["i"]], where[b["i"]]
+        if wa is None or wb is None:
+            return False
+        if wb[0] in reachable_blocks(wa[0]):
+            return True
+        return wa[0] == wb[0] and wb[1] > wa[1]
+    seen = {}
+    for r in readers:
+        later = [(w, d) for w, d in writers if reaches(r, w)]
+        ent = "apply_filters_and_compute_diff_stats: `%s` reads complete categories" % expr_str(f, r)[:60]
+        seen[ent] = seen.get(ent, 0) + 1
+        if seen[ent] > 1:
+            ent += " #%d" % seen[ent]
+        ctx.ob("R-CATORDER", ent, not later, f.loc(r),
+               "no category-writing call can run after this read" if not later else
+               "%s can still run after this read (%s): the counter is computed from categories that are not final, "
+               "while the reporters evaluate the same predicate later, with the final categories - summary and "
+               "listing disagree" % (", ".join(sorted({d["n"] for _, d in later})),
+                                     ", ".join(sorted({f.loc(w) for w, _ in later}))))
+
+
+def _opts_in(f, e):
+    return {(f.decl(x) or {}).get("n") for x in walk(e)
+            if x["k"] == "CXXMemberCallExpr" and (f.decl(x) or {}).get("n", "").startswith("show_")
+            and "diff_context" in ((f.decl(x) or {}).get("cls") or "")}
+
+
+def _opts_fn(P, f, depth=0, seen=None):
+    """show_* options of the diff context a function tests, through the repo helpers it calls"""
+    seen = seen if seen is not None else set()
+    if f.u in seen or depth > 3:
+        return set()
+    seen.add(f.u)
+    o = _opts_in(f, f.body)
+    for n, d in f.calls():
+        g = P.funcs.get(d.get("u"))
+        if g is not None and not g.dep and g.q.startswith("abigail::comparison::") and \
+                (g.cls or "").startswith("abigail::comparison::corpus_diff::diff_stats"):
+            o |= _opts_fn(P, g, depth + 1, seen)
+    return o
+
+
+def check_optgate(ctx, P):
+    """R-OPTGATE: a section of the report and the counter that feeds the verdict are switched off by the same
+    options.  For every container K of SECTION_TABLE: the show_* options tested by the conditions that enclose the
+    reporters' section over K equal the show_* options under which num_<K>_filtered_out() declares everything
+    filtered (through the helpers of diff_stats).  An option the reporter honours and the counter ignores gives a
+    change bit with an empty report; the converse hides a change from the exit status."""
+    pairs = at.netpairs(ctx, P)
+    n = 0
+    counter_opts = {}
+    for K, pred, counter in SECTION_TABLE:
+        pair, _ = pairs.get(counter, (None, None))
+        if not pair:
+            raise AnalysisBroken("anchor vanished: diff_stats::%s as num - filtered" % counter)
+        gs = [x for x in P.all_funcs() if x.n == pair[1] and (x.cls or "").endswith("diff_stats")
+              and len(x.r["params"]) == 0 and not x.dep]
+        if len(gs) != 1:
+            raise AnalysisBroken("anchor vanished: diff_stats::%s()" % pair[1])
+        ctx.analysed(gs[0])
+        counter_opts[K] = (pair[1], _opts_fn(P, gs[0]), gs[0])
+    for f in sorted(P.all_funcs(), key=lambda x: x.q):
+        if f.dep or f.n != "report" or not f.cls or not f.cls.endswith("_reporter"):
+            continue
+        ps = f.params()
+        if not ps or "corpus_diff" not in (f.unit.type(ps[0]["t"]) or {}).get("c", ""):
+            continue
+        short_cls = f.cls.split("::")[-1]
+        for K, pred, counter in SECTION_TABLE:
+            for loop in f.nodes():
+                if loop["k"] != "ForStmt":
+                    continue
+                if not any((f.decl(x) or {}).get("n") == pred for x in walk(loop["c"][3])
+                           if x["k"] in ("CXXMemberCallExpr", "CallExpr")):
+                    continue
+                gate = set()
+                for a in f.ancestors(loop):
+                    if a["k"] == "IfStmt":
+                        gate |= _opts_in(f, a["c"][0])
+                getter, copts, g = counter_opts[K]
+                n += 1
+                ok = gate == copts
+                ctx.ob("R-OPTGATE", "%s section over %s and %s() obey the same options" % (short_cls, K, getter), ok,
+                       f.loc(loop),
+                       "both depend on %s" % (sorted(gate) or "no option") if ok else
+                       "the section is shown under %s but %s() (src %s) decides on %s: with the differing option off, the "
+                       "exit status and the report disagree" % (sorted(gate), getter, g.loc(), sorted(copts)))
+    ctx.floor("R-OPTGATE", "reporter sections paired with their filtered-out counter", n, 16)
